@@ -304,7 +304,7 @@ def run(chk):
 
     # ---- 1. design level (exhaustive) + vacuity guards + generator graphs, in parallel
     design = DESIGN_QUICK if quick else DESIGN_THOROUGH
-    gens = [g for g in GENS if (not quick) or g[4] or g[0] == "GenFin3x12"]
+    gens = [g for g in GENS if (not quick) or g[4] or g[0] == "GenDie3x12"]
     mutants = MUTANTS + ([] if quick else MUTANTS_THOROUGH)
     jobs = [("design", c) for c in design] + [("mut", c) for c, _ in mutants]
     if not replay_case:
@@ -329,9 +329,6 @@ def run(chk):
         res, _ = results[("design", c)]
         chk.add_tlc("%s exhaustive: timed 2PL => Serializable, QuiescentAgree, NoLeak, NoIndefiniteBlock, no deadlock" % c, res)
         all_ok = all_ok and res.ok
-        if res.violation:
-            # a counterexample on a model alone is never a verdict; it says the model (or the design) is off
-            chk.inconclusive.append("design model %s violates %s" % (c, res.violation))
     chk.exhaustive = all_ok
     expected = dict(mutants)
     for c, _ in mutants:
@@ -350,13 +347,14 @@ def run(chk):
         cases = [replay_case]
     else:
         salt = chk.seed
-        for name, fam, na, lockof, full_quick in gens:
+        for name, fam, na, lockof, full_quick, die_budget in gens:
             res, d = results[("gen", name)]
             chk.add_tlc("%s generator graph (every transition exported)" % name, res)
             path = os.path.join(d, "edges-%s.ndjson" % name)
             if not res.ok or not os.path.exists(path):
                 raise V.Inconclusive("generator %s produced no graph: %s" % (name, res.error or res.violation))
-            g = Graph(path)
+            has_die = name.startswith("GenDie")
+            g = Graph(path, nodead=has_die)       # the part without deaths (for GenDie*: = the graph of GenFin*)
             walks = []
             if full_quick or not quick:
                 # the largest graph is covered as far as the budget goes (the rest is reported as uncovered)
@@ -372,9 +370,36 @@ def run(chk):
             for i, w in enumerate(walks + rw):
                 salt += 1
                 cases.append(concretize(g, w, "%s-%s%d" % (name, "w" if i < len(walks) else "r", i), fam, na, lockof, rng, salt))
+            if has_die:
+                # the death of a sharer and everything after it: every walk holds one death (MaxDie = 1), so every
+                # `die` edge needs a walk of its own
+                gd = Graph(path)
+                budget = die_budget[0 if quick else 1]
+                note = {"edges_at_or_after_a_death": len(gd.dead_edges),
+                        "die_edges": sum(1 for k in gd.dead_edges if gd.edges[k][2]["t"] == "die")}
+                dwalks = []
+                if full_quick or not quick:
+                    dwalks, dleft = gd.cover(rng, 60 if na == 2 else 100, only=gd.dead_edges,
+                                             max_walks=400 if len(gd.edges) > 20000 else None)
+                    note.update({"walks": len(dwalks), "uncovered": dleft})
+                    if budget is not None and len(dwalks) > budget:
+                        dwalks = rng.sample(dwalks, budget)
+                        note["walks_run_in_this_tier"] = budget
+                else:
+                    dwalks = [gd.random_walk(rng, rng.choice([30, 60]), die_after=rng.choice([3, 6, 10, 15]))
+                              for _ in range(budget or 0)]
+                    note.update({"walks": 0, "random_walks_through_a_death": len(dwalks)})
+                cover_note[name]["death"] = note
+                for i, w in enumerate(dwalks):
+                    salt += 1
+                    cases.append(concretize(gd, w, "%s-d%d" % (name, i), "fin", na, lockof, rng, salt))
+        dd, salt = directed_die_cases(rng, salt)
+        cases += dd
         nstress = 16 if quick else 160
         for i in range(nstress):
             cases.append(stress_case("stress-%d" % i, rng, bank=(i % 5 in (1, 3))))
+        for i in range(6 if quick else 48):
+            cases.append(stress_case("stress-die-%d" % i, rng, bank=(i % 3 == 1), die=True))
     chk.notes["generator_cover"] = cover_note
     by_id = {c["id"]: c for c in cases}
 
@@ -446,7 +471,7 @@ def run(chk):
     segs = V.split_cases(hist)
     chunks = 4 if quick else 12
     obs = V.fold_traces(work, "TxnSer", "TxnSer.cfg", segs, timeout=3000, tracefile="hist.ndjson", chunks=chunks,
-                        max_rounds=4)
+                        max_rounds=4, jvm=JVM if quick else None)
     chk.states += obs["states"]
     chk.transitions += obs["transitions"]
     chk.traces += obs["accepted"]
@@ -462,12 +487,23 @@ def run(chk):
             what = ("the committed sections and observations recorded from the real code admit no serial order consistent "
                     "with real time in which every read returns the latest earlier write: TLC's search linearized at most "
                     "%d of the %d items of case %s" % (max(r["line_in_seg"] - 1, 0), h.get("n"), h.get("id")))
+            if h.get("dead"):
+                what += (" (sharer %s died inside a section in this case: its section never committed and is not among the items)"
+                         % h.get("dead"))
         else:
-            inv = "SoloProgress" if "SoloProgress" in r["text"] else "SumPreserved" if "SumPreserved" in r["text"] else "invariant"
+            inv = ("SoloProgress" if "SoloProgress" in r["text"] else "SumPreserved" if "SumPreserved" in r["text"]
+                   else "NoDirtyRead" if "NoDirtyRead" in r["text"] else "invariant")
             item = None
             what = "%s in case %s: %s" % (inv, h.get("id"), r["text"])
             if inv == "SoloProgress":
                 what += " -- a probe section attempted while every other sharer was between sections was refused access on every attempt (a lock outlived the section that took it)"
+            if inv == "NoDirtyRead":
+                dw = {(w["c"], w["v"]) for w in h.get("deadw", [])}
+                item = next((it for it in seg[1:] if any(o["k"] == "r" and (o["c"], o["v"]) in dw for o in it.get("ops", []))), None)
+                what += (" -- dirty read: a committed section of a surviving sharer (or GetState()) returned a value written by the "
+                         "section of sharer %s, which ended in a fatal error and never committed" % h.get("dead"))
+            if h.get("dead") and inv in ("SumPreserved", "invariant"):
+                what += " (sharer %s died inside a section in this case)" % h.get("dead")
         report("C07:%s:mode=%s:fam=%s" % (inv, h.get("mode"), h.get("fam")),
                what, {"input": c, "history": seg, "line_in_seg": r["line_in_seg"], "tlc": r["text"], "item": item})
     if per_key:
@@ -475,7 +511,8 @@ def run(chk):
 
     # ---- 6. M-level conformance of the gated recordings (drift only)
     tsegs = V.split_cases(trace)
-    mt = V.fold_traces(work, "LocalSharedTrace", "LocalSharedTrace.cfg", tsegs, timeout=3000, chunks=chunks, max_rounds=4)
+    mt = V.fold_traces(work, "LocalSharedTrace", "LocalSharedTrace.cfg", tsegs, timeout=3000, chunks=chunks, max_rounds=4,
+                       jvm=JVM if quick else None)
     chk.states += mt["states"]
     chk.transitions += mt["transitions"]
     chk.notes["m_level_traces_accepted"] = mt["accepted"]
@@ -495,6 +532,8 @@ def run(chk):
     chk.notes.update({"cases": len(cases), "gated_cases": len(gated), "stress_cases": len(stress),
                       "committed_sections_and_observations_judged": ntx,
                       "gated_steps": sum(len(c["steps"]) for c in gated),
+                      "cases_with_a_death": sum(1 for sg in segs if sg[0].get("dead")),
+                      "gated_deaths_planned": sum(1 for c in gated for s in c["steps"] if s["t"] == "die"),
                       "gated_timeouts_planned": sum(1 for c in gated for s in c["steps"] if s["t"] == "timeout"),
                       "gated_handoffs_planned": sum(1 for c in gated for s in c["steps"] if s["t"] == "grant"),
                       "binding_kinds": sorted({k for c in cases for k in c["kinds"]}),
@@ -506,12 +545,14 @@ def run(chk):
         "TLC/SANY/Json/CSV modules",
         "stamps: start taken before the section's first access, end after MPCalContext reported the commit, from one atomic counter per case",
         "written values are unique per write (gated, stress-unique), so an effect of an aborted section cannot be mistaken for a committed one",
+        "a dying section ends the way a failed MPCal assertion does: the body returns an error wrapping distsys.ErrAssertionFailed",
         "a hang is reported only after >= 20 s (>= 300 x the lock timeout) plus five idle rounds without any step in the case",
         "hand-built archetypes use the API generated code uses (RequireArchetypeResourceRef, iface.Read/Write with index lists, Goto)"]
     chk.gaps += ["systems/raftkvs itself is not run here (its shared-variable wiring -- plain, Persistent, toMap/IncMap, Index -- is reproduced; C08 runs the system)",
                  "crash recovery of Persistent (unimplemented in the pinned tree)"]
     return chk.finish(rule="every transition of TLC's state graphs of LocalShared.tla (%s) covered by walks and forced, step by step, on real "
                            "MakeLocalShared() resources under MPCalContext.Run (gated), plus random walks and %d free-running "
-                           "stress cases (2-8 sharers, unique values / bank transfers, random aborts and pauses); every committed "
+                           "stress cases (2-8 sharers, unique values / bank transfers, random aborts and pauses, in some a sharer "
+                           "dies inside a section) and hand-written walks around a death; every committed "
                            "section and GetState() observation judged by TLC's serialization search TxnSer.tla"
                            % (", ".join(n for n in cover_note), len(stress)))
